@@ -96,6 +96,8 @@ static void mode_cvbr(void){
   int sk=vc_below(&r,VS_NFINITE); if(sk==VS_SILENCE||sk==VS_DC||sk==VS_DITHER) sk=VS_MULTITONE; vc_siggen g; vs_init(&g,sk,Fs,ch,0.6f,vc_next(&r));
   static float f[5760*2]; static unsigned char pkt[1500]; long long total=0; int *lens=(int*)malloc(sizeof(int)*nfr); double tol=atof(vc_arg("tol","0.15")), tolw=atof(vc_arg("tolw","0.35")); /* calib/c05.json */
   int modes_seen=0; int mode_switch_at=vc_chance(&r,1,3)?nfr/3:-1;
+  /* one stream in eight: a steady tone through the SILK layer at a speech bitrate (SILK's only closed-loop rate control is its bit reservoir; a stationary tonal input is what leans on it) */
+  if(vc_chance(&r,1,8)){ sk=VS_LEVELDIFF; vs_init(&g,sk,Fs,ch,0.6f,vc_next(&r)); fm=1; opus_encoder_ctl(e,VK_SET_FORCE_MODE_REQUEST,VK_MODE_SILK); br=vc_range(&r,10000,24000)*ch; opus_encoder_ctl(e,OPUS_SET_BITRATE(br)); mode_switch_at=-1; vc_count("cvbr_steady_tone_silk_streams",1); }
   for(int k=0;k<nfr;k++){ if(k==mode_switch_at){ /* a history: hybrid/SILK frames then CELT (or back) while CVBR stays on */ opus_encoder_ctl(e,VK_SET_FORCE_MODE_REQUEST,vc_chance(&r,1,2)?VK_MODE_HYBRID:VK_MODE_SILK+(int)vc_below(&r,3)); }
     if(k==2*nfr/3&&mode_switch_at>=0) opus_encoder_ctl(e,VK_SET_FORCE_MODE_REQUEST,VK_MODE_CELT);
     vs_fill(&g,f,fs); int len=opus_encode_float(e,f,fs,pkt,1500); if(len<0){ vc_viol("encode:failed","cvbr encode returned %d",len); break; } lens[k]=len; total+=len; modes_seen|=1<<rfc_mode(pkt[0]); }
